@@ -604,6 +604,161 @@ example : (match newReader (recorderOps fifoOps) Cfg.repaired file3 with
 
 end Stats
 
+/-! ### histories that mix kinds of cache objects, FIFO included (extension round 5)
+
+`AllCache` = a cache object of any provided kind: FIFO | StatsRecorder(FIFO) | LRU | Random | StatsRecorder(LRU) |
+StatsRecorder(Random).  The full statement (`all_kinds_transparent_full`: any sequence of SetCache of new objects of any
+of these kinds, nil, or objects used earlier) is NOT proved: `FInv` is stated for tables of FIFOs only and the contract
+invariant `Inv` is false as soon as a FIFO has been used (a detached FIFO may reference the current block).  What is
+proved: (1) histories that mix bare FIFOs and StatsRecorder(FIFO)s freely (`fifo_family_transparent`); (2) histories
+over `AllCache` whose objects all come from the FIFO family or all from the contract family
+(`all_kinds_transparent_partial`). -/
+
+section AllKinds
+
+abbrev FifoFamily := LCache ⊕ (LCache × Stats)
+def fifoFamilyOps : CacheOps FifoFamily := sumOps fifoOps (recorderOps fifoOps)
+def fifoFamilyWF : FifoFamily → Prop := sumWF LCache.WF (fun s => LCache.WF s.1)
+
+theorem fifoFamily_hom : Hom fifoFamilyOps fifoOps (Sum.elim id Prod.fst) :=
+  sum_hom (id_hom fifoOps) (recorder_hom fifoOps)
+
+/-- histories that attach, replace, detach and re-attach bare FIFOs and StatsRecorder(FIFO)s in any order -/
+theorem fifo_family_transparent (cfg : Cfg) (hcfg : cfg.noStale) (hlg : cfg.lentGuard = true) (f : File)
+    (hf : FileOK f) (ops : List (Op FifoFamily)) (ok : ∀ op ∈ ops, OpOK fifoFamilyOps fifoFamilyWF op)
+    (outs : List Out) (hr : outputs cfg fifoFamilyOps f ops = .ok outs) :
+    outputs cfg fifoFamilyOps f (ops.map Op.uncached) = .ok outs := by
+  rw [hom_same_behaviour _ _ _ fifoFamily_hom] at hr ⊢
+  rw [uncached_mapC]
+  refine fifo_repaired_transparent cfg hcfg hlg f hf _ ?_ outs hr
+  intro op hop
+  obtain ⟨op0, h1, h2⟩ := List.mem_map.1 hop
+  subst h2
+  refine opOK_hom fifoFamily_hom ?_ op0 (ok op0 h1)
+  intro s hs
+  cases s with
+  | inl a => exact hs
+  | inr b => exact hs
+
+abbrev AllCache := FifoFamily ⊕ AnyCache
+def allOps : CacheOps AllCache := sumOps fifoFamilyOps anyOps
+def allWF : AllCache → Prop := sumWF fifoFamilyWF anyWF
+
+def allFIFO (n : Int) : AllCache := .inl (.inl (LCache.new n))
+def allStatsFIFO (n : Int) : AllCache := .inl (.inr (LCache.new n, {}))
+def allOther (c : AnyCache) : AllCache := .inr c
+
+theorem all_setCache_ok (n : Int) (hn : 1 ≤ n) (hints : List Int) :
+    OpOK allOps allWF (.setCache (some (allFIFO n)) hints) ∧
+    OpOK allOps allWF (.setCache (some (allStatsFIFO n)) hints) ∧
+    OpOK allOps allWF (.setCache (some (allOther (anyLRU n))) hints) ∧
+    OpOK allOps allWF (.setCache (some (allOther (anyRandom n))) hints) ∧
+    OpOK allOps allWF (.setCache (some (allOther (anyStatsLRU n))) hints) ∧
+    OpOK allOps allWF (.setCache (some (allOther (anyStatsRandom n))) hints) :=
+  ⟨⟨LCache.wf_new hn, rfl⟩, ⟨LCache.wf_new hn, rfl⟩, ⟨LCache.wf_new hn, rfl⟩, ⟨RCache.wf_new hn, rfl⟩,
+    ⟨LCache.wf_new hn, rfl⟩, ⟨RCache.wf_new hn, rfl⟩⟩
+
+/-- THE FULL STATEMENT (open): SetCache may install a new object of any kind, nil, or any object used earlier -/
+def all_kinds_transparent_full : Prop :=
+  ∀ (f : File), FileOK f → ∀ (ops : List (Op AllCache)), (∀ op ∈ ops, OpOK allOps allWF op) →
+    ∀ outs, outputs Cfg.repaired allOps f ops = .ok outs →
+      outputs Cfg.repaired allOps f (ops.map Op.uncached) = .ok outs
+
+/-- all objects of the history are of the FIFO family, or all are of the contract family -/
+def OneFamily (ops : List (Op AllCache)) : Prop :=
+  (∀ c h, Op.setCache (some c) h ∈ ops → ∃ a, c = Sum.inl a) ∨
+  (∀ c h, Op.setCache (some c) h ∈ ops → ∃ b, c = Sum.inr b)
+
+/-- the part of the full statement that is proved: histories over `AllCache` that stay within one family (within the
+family every mixture, every re-attachment) -/
+theorem all_kinds_transparent_partial (cfg : Cfg) (hcfg : cfg.noStale) (hlg : cfg.lentGuard = true) (f : File)
+    (hf : FileOK f) (ops : List (Op AllCache)) (ok : ∀ op ∈ ops, OpOK allOps allWF op) (one : OneFamily ops)
+    (outs : List Out) (hr : outputs cfg allOps f ops = .ok outs) :
+    outputs cfg allOps f (ops.map Op.uncached) = .ok outs := by
+  rcases one with hl | hrr
+  · have e := left_inl ops hl
+    have ok1 : ∀ op ∈ ops.map Op.left, OpOK fifoFamilyOps fifoFamilyWF op := by
+      intro op hop
+      obtain ⟨op0, h1, h2⟩ := List.mem_map.1 hop
+      subst h2
+      have := ok op0 h1
+      cases op0 with
+      | setCache c h =>
+        cases c with
+        | none => trivial
+        | some c =>
+          obtain ⟨a, rfl⟩ := hl c h h1
+          exact this
+      | _ => trivial
+    rw [← e] at hr ⊢
+    have Hl : Hom fifoFamilyOps allOps Sum.inl := inl_hom fifoFamilyOps anyOps
+    rw [← hom_same_behaviour _ _ _ Hl] at hr
+    rw [← uncached_mapC, ← hom_same_behaviour _ _ _ Hl]
+    exact fifo_family_transparent cfg hcfg hlg f hf _ ok1 outs hr
+  · have e := right_inr ops hrr
+    have ok1 : ∀ op ∈ ops.map Op.right, OpOK anyOps anyWF op := by
+      intro op hop
+      obtain ⟨op0, h1, h2⟩ := List.mem_map.1 hop
+      subst h2
+      have := ok op0 h1
+      cases op0 with
+      | setCache c h =>
+        cases c with
+        | none => trivial
+        | some c =>
+          obtain ⟨a, rfl⟩ := hrr c h h1
+          exact this
+      | _ => trivial
+    rw [← e] at hr ⊢
+    have Hr : Hom anyOps allOps Sum.inr := inr_hom fifoFamilyOps anyOps
+    rw [← hom_same_behaviour _ _ _ Hr] at hr
+    rw [← uncached_mapC, ← hom_same_behaviour _ _ _ Hr]
+    exact mixed_kinds_transparent cfg hcfg f hf _ ok1 outs hr
+
+/-- FIFO(2) → StatsRecorder(FIFO(1)) → nil → the first FIFO again → the StatsRecorder again -/
+def familyHist : List (Op AllCache) :=
+  [.setCache (some (allFIFO 2)) [], .read 8, .seek 0 0, .setCache (some (allStatsFIFO 1)) [], .seek 70 0, .read 2,
+   .seek 35 1, .setCache none [], .seek 0 2, .reattach 0 [], .seek 70 0, .seek 0 0, .read 6, .reattach 0 [],
+   .seek 35 0, .read 3]
+
+/-- non-vacuity of `all_kinds_transparent_partial`: hypotheses hold, the run is `ok` (16 answers), cached = uncached -/
+example : (∀ op ∈ familyHist, OpOK allOps allWF op) ∧ OneFamily familyHist ∧
+    (bytesOf (outputs Cfg.repaired allOps file3 familyHist)).length = 16 ∧
+    bytesOf (outputs Cfg.repaired allOps file3 (familyHist.map Op.uncached)) =
+      bytesOf (outputs Cfg.repaired allOps file3 familyHist) := by
+  refine ⟨?_, Or.inl ?_, by decide, by decide⟩
+  · intro op hop
+    simp only [familyHist, List.mem_cons, List.mem_nil_iff, or_false] at hop
+    rcases hop with h1 | h1 | h1 | h1 | h1 | h1 | h1 | h1 | h1 | h1 | h1 | h1 | h1 | h1 | h1 | h1 <;> subst h1 <;>
+      first | exact (all_setCache_ok 2 (by decide) []).1 | exact (all_setCache_ok 1 (by decide) []).2.1 | trivial
+  · intro c h hop
+    simp only [familyHist, List.mem_cons, List.mem_nil_iff, or_false] at hop
+    rcases hop with h1 | h1 | h1 | h1 | h1 | h1 | h1 | h1 | h1 | h1 | h1 | h1 | h1 | h1 | h1 | h1 <;> cases h1 <;>
+      exact ⟨_, rfl⟩
+
+/-- a history OUTSIDE the proved part (FIFO, then LRU, then the FIFO again, with the loaned block in play): evaluated
+only — cached = uncached on the model, as the harness observes on the code -/
+def crossHist : List (Op AllCache) :=
+  [.setCache (some (allFIFO 4)) [], .read 8, .seek 0 0, .setCache (some (allOther (anyLRU 1))) [], .seek 70 0, .read 2,
+   .seek 35 0, .reattach 0 [], .seek 0 0, .read 2, .reattach 0 [], .seek 70 0, .read 4]
+
+example : (∀ op ∈ crossHist, OpOK allOps allWF op) ∧ ¬ OneFamily crossHist ∧
+    bytesOf (outputs Cfg.repaired allOps file3 (crossHist.map Op.uncached)) =
+      bytesOf (outputs Cfg.repaired allOps file3 crossHist) := by
+  refine ⟨?_, ?_, by decide⟩
+  · intro op hop
+    simp only [crossHist, List.mem_cons, List.mem_nil_iff, or_false] at hop
+    rcases hop with h1 | h1 | h1 | h1 | h1 | h1 | h1 | h1 | h1 | h1 | h1 | h1 | h1 <;> subst h1 <;>
+      first | exact (all_setCache_ok 4 (by decide) []).1 | exact (all_setCache_ok 1 (by decide) []).2.2.1 | trivial
+  · intro h
+    rcases h with h | h
+    · obtain ⟨a, ha⟩ := h (allOther (anyLRU 1)) [] (by simp [crossHist])
+      cases ha
+    · obtain ⟨a, ha⟩ := h (allFIFO 4) [] (by simp [crossHist])
+      cases ha
+
+end AllKinds
+
 /-! ### read-ahead with a cache (rd > 1): the recorded finding, pinned on an abstract transition system
 
 No refinement theorem is claimed for `rd > 1` with a cache: the worker goroutine skips members the cache holds at the
